@@ -190,6 +190,21 @@ def run(ctx):
         base = dict(Fps=fps, Preview=preview, Trig=trig, Min=mn, Max=mx, const=trng.random() < 0.5, blip=0)
         rs.append(dict(base, steps=steps))
         rs.append(dict(base, steps=[st for st in steps if st["a"] != "snapreq"]))
+    # file creation failing while the disk-space check still passes (the output directory replaced by a regular file):
+    # StartRecording itself fails on the trigger frame and on every motion frame after it
+    for i in range(6 if tier == "quick" else 40):
+        fps, preview, trig = trng.choice([1, 2, 3]), trng.choice([0, 1]), trng.choice([1, 2])
+        mn = trng.choice([1, 2]); mx = mn + trng.choice([2, 4])
+        steps = [dict(a="frame", motion=False) for _ in range(trng.randint(2, 6))]
+        steps += [dict(a="blockdir")]
+        steps += [dict(a="frame", motion=True) for _ in range(trng.randint(trig + 1, trig + 6))]
+        if trng.random() < 0.5:
+            steps += [dict(a="snapreq"), dict(a="frame", motion=True), dict(a="frame", motion=False)]
+        steps += [dict(a="fixdir")]
+        steps += [dict(a="frame", motion=(k < 4)) for k in range(preview * fps + trig + mx * fps + 25)]
+        base = dict(Fps=fps, Preview=preview, Trig=trig, Min=mn, Max=mx, const=False, blip=0)
+        rs.append(dict(base, steps=steps))
+        rs.append(dict(base, steps=[st for st in steps if st["a"] != "snapreq"]))
     npairs = len(rs) // 2
     inp, outp = ctx.path("run", "reqpairs.json"), ctx.path("run", "reqpairs.ndjson")
     json.dump(dict(scripts=rs), open(inp, "w"))
@@ -203,6 +218,7 @@ def run(ctx):
     for i in range(npairs):
         a, b = pe[2 * i], pe[2 * i + 1]
         events.append(dict(ev="reqpair", pair=i, panic_with=bool(a["panic"]), panic_without=bool(b["panic"]), panic=a["panic"][:300],
+                           stale=int(a.get("stale_snapshots", 0)) + int(b.get("stale_snapshots", 0)), first_stale=a.get("first_stale", 0) or b.get("first_stale", 0),
                            **{"with": a.get("all") or [], "without": b.get("all") or []}, script=rs[2 * i]))
     # ---------------- runMain: a test recording requested in the middle of a motion recording (and while idle): the motion
     # and continuous files must be exactly the ones predicted without the request (SystemTrace.tla)
